@@ -426,6 +426,7 @@ package gozxing
 //@   use viewRow(y + this.top, this.dataHeight, this.dataWidth, this.left + this.Width)
 //@   ensures (y < 0 || y >= this.Height) == (e != nil)
 //@   ensures e == nil ==> len(r) >= this.Width && forall x int :: 0 <= x && x < this.Width ==> r[x] == pxRGB(this, x, y)
+//@   ensures e == nil ==> (arr(r) == arr(row) || fresh(r))
 //@   ensures forall k int :: 0 <= k && k < len(this.luminances) ==> this.luminances[k] == old(this.luminances[k])
 
 // Crop: a cropped pixel is the original pixel at the offset position; a negative origin or a rectangle leaving the
@@ -435,7 +436,7 @@ package gozxing
 //@   requires wfRGB(this)
 //@   let bad = left < 0 || top < 0 || width < 0 || height < 0 || this.left + left + width > this.dataWidth || this.top + top + height > this.dataHeight
 //@   ensures bad == (e != nil)
-//@   ensures e == nil ==> typeis(r, "*RGBLuminanceSource") && wfRGB(ptrof(r, "*RGBLuminanceSource")) && ptrof(r, "*RGBLuminanceSource").Width == width && ptrof(r, "*RGBLuminanceSource").Height == height
+//@   ensures e == nil ==> typeis(r, "*RGBLuminanceSource") && ptrof(r, "*RGBLuminanceSource") != nil && wfRGB(ptrof(r, "*RGBLuminanceSource")) && ptrof(r, "*RGBLuminanceSource").Width == width && ptrof(r, "*RGBLuminanceSource").Height == height
 //@   ensures e == nil ==> forall x int, y int :: 0 <= x && x < width && 0 <= y && y < height ==> pxRGB(ptrof(r, "*RGBLuminanceSource"), x, y) == pxRGB(this, x + left, y + top)
 //@   modifies nothing
 
@@ -448,6 +449,7 @@ package gozxing
 //@   use viewRow(y + this.top, this.dataHeight, this.dataWidth, this.left + this.Width)
 //@   ensures (y < 0 || y >= this.Height) == (e != nil)
 //@   ensures e == nil ==> len(r) >= this.Width && forall x int :: 0 <= x && x < this.Width ==> r[x] == pxYUV(this, x, y)
+//@   ensures e == nil ==> (arr(r) == arr(row) || fresh(r))
 
 //@ func (this *PlanarYUVLuminanceSource) Crop(left int, top int, width int, height int) (r LuminanceSource, e error)
 //@   property C17
@@ -456,3 +458,47 @@ package gozxing
 //@   ensures bad == (e != nil)
 //@   ensures e == nil ==> typeis(r, "*PlanarYUVLuminanceSource") && wfYUV(ptrof(r, "*PlanarYUVLuminanceSource")) && ptrof(r, "*PlanarYUVLuminanceSource").Width == width && ptrof(r, "*PlanarYUVLuminanceSource").Height == height
 //@   ensures e == nil ==> forall x int, y int :: 0 <= x && x < width && 0 <= y && y < height ==> pxYUV(ptrof(r, "*PlanarYUVLuminanceSource"), x, y) == pxYUV(this, x + left, y + top)
+
+//@ func (this *GoImageLuminanceSource) Crop(left int, top int, width int, height int) (r LuminanceSource, e error)
+//@   property C17
+//@   requires this.RGBLuminanceSource != nil && wfRGB(this.RGBLuminanceSource)
+//@   let s = this.RGBLuminanceSource
+//@   let bad = left < 0 || top < 0 || width < 0 || height < 0 || s.left + left + width > s.dataWidth || s.top + top + height > s.dataHeight
+//@   ensures bad == (e != nil)
+//@   ensures e == nil ==> typeis(r, "*GoImageLuminanceSource") && ptrof(r, "*GoImageLuminanceSource").RGBLuminanceSource != nil
+//@   ensures e == nil ==> wfRGB(ptrof(r, "*GoImageLuminanceSource").RGBLuminanceSource)
+//@   ensures e == nil ==> forall x int, y int :: 0 <= x && x < width && 0 <= y && y < height ==> pxRGB(ptrof(r, "*GoImageLuminanceSource").RGBLuminanceSource, x, y) == pxRGB(s, x + left, y + top)
+
+// a quarter turn counter-clockwise: the new view is Height wide and Width high, and new(x', y') == old(Width-1-y', x')
+//@ lemma rotIdx(j int, h int, i int, w int)
+//@   property C17
+//@   opt nia=on
+//@   requires 0 <= j && j < w && 0 <= i && i < h
+//@   ensures 0 <= j*h + i && j*h + i < w*h && j*h + i < h*w
+//@ func (this *GoImageLuminanceSource) RotateCounterClockwise() (r LuminanceSource, e error)
+//@   property C17 C09
+//@   requires this.RGBLuminanceSource != nil && wfRGB(this.RGBLuminanceSource)
+//@   let s = this.RGBLuminanceSource
+//@   let n = ptrof(r, "*GoImageLuminanceSource").RGBLuminanceSource
+//@   use mulNonneg(this.RGBLuminanceSource.Width, this.RGBLuminanceSource.Height)
+//@   ensures e == nil && typeis(r, "*GoImageLuminanceSource") && n != nil && wfRGB(n) && n.Width == s.Height && n.Height == s.Width
+//@   ensures forall x int, y int :: hint(rotIdx(y, s.Height, x, s.Width)) && 0 <= x && x < s.Height && 0 <= y && y < s.Width ==> pxRGB(n, x, y) == pxRGB(s, s.Width - 1 - y, x)
+//@   loop 0: invariant 0 <= j && j <= width && width == s.Width && height == s.Height && top == s.top && left == s.left && dataWidth == s.dataWidth && oldLuminas == s.luminances && fresh(newLuminas) && off(newLuminas) == 0 && len(newLuminas) == width*height && wfRGB(s)
+//@   loop 0: invariant forall j2 int, i2 int :: hint(rotIdx(j2, height, i2, width)) && 0 <= j2 && j2 < j && 0 <= i2 && i2 < height ==> newLuminas[j2*height + i2] == pxRGB(s, width - 1 - j2, i2)
+//@   loop 0: decreases width - j
+//@   loop 1: invariant 0 <= j && j < width && 0 <= i && i <= height && width == s.Width && height == s.Height && top == s.top && left == s.left && dataWidth == s.dataWidth && oldLuminas == s.luminances && fresh(newLuminas) && off(newLuminas) == 0 && len(newLuminas) == width*height && wfRGB(s) && x == left + width - 1 - j
+//@   loop 1: use rotIdx(j, height, i, width)
+//@   loop 1: use viewRow(top + i, s.dataHeight, dataWidth, x + 1)
+//@   loop 1: invariant forall j2 int, i2 int :: hint(rotIdx(j2, height, i2, width)) && hint(rowIdxInj(j2, i2, j, i - 1, height)) && 0 <= j2 && j2 < width && 0 <= i2 && i2 < height && (j2 < j || (j2 == j && i2 < i)) ==> newLuminas[j2*height + i2] == pxRGB(s, width - 1 - j2, i2)
+//@   loop 1: decreases height - i
+
+// the local (hybrid) method works on ceil(width/8) x ceil(height/8) blocks: every pixel belongs to a block
+//@ func (this *HybridBinarizer) GetBlackMatrix() (r *BitMatrix, e error)
+//@   property C17
+//@   requires this.GlobalHistogramBinarizer != nil && this.GlobalHistogramBinarizer.source != nil
+//@   assert call(calculateBlackPoints, 0): subWidth == (width + 7) / 8 && subHeight == (height + 7) / 8 && width >= 40 && height >= 40
+
+//@ func (this *HybridBinarizer) cap(value int, min int, max int) (r int)
+//@   property C17
+//@   ensures min <= max ==> min <= r && r <= max && (min <= value && value <= max ==> r == value)
+//@   modifies nothing
